@@ -85,3 +85,24 @@ package model
 //@   modifies n.UseCaseInformation, held
 //@   loop 0 invariant len: len(usecaseInfo) == Fcnt($k)
 //@   loop 0 invariant elems: forall j int :: 0 <= j && j < $k && kept($s[j]) ==> usecaseInfo[Fcnt(j)] == $s[j]
+
+//@ func (*NodeManagementUseCaseDataType).RemoveUseCaseSupport
+//@   requires n != nil
+//@   let I0 = n.UseCaseInformation
+//@   define M(info) = ucMatch(info, address, actor, useCaseName)
+//@   define anyMatch = exists i int :: 0 <= i && i < len(I0) && M(I0[i])
+//@   spec first() int
+//@   axiom old(anyMatch) ==> 0 <= first() && first() < len(I0) && M(I0[first()]) && forall j int :: 0 <= j && j < first() ==> !M(I0[j])
+//@   ensures[C20] unknown-noop: !old(anyMatch) ==> n.UseCaseInformation == I0
+//@   ensures[C20] at-most-one-dropped: old(anyMatch) ==> len(n.UseCaseInformation) == len(I0) || len(n.UseCaseInformation) == len(I0) - 1
+//@   ensures[C20] before-untouched: old(anyMatch) ==> forall j int :: 0 <= j && j < first() ==> n.UseCaseInformation[j] == old(I0[j])
+//@   ensures[C20] after-untouched-same-len: old(anyMatch) && len(n.UseCaseInformation) == len(I0) ==> forall j int :: first() < j && j < len(I0) ==> n.UseCaseInformation[j] == old(I0[j])
+//@   ensures[C20] after-untouched-dropped: old(anyMatch) && len(n.UseCaseInformation) == len(I0) - 1 ==> forall j int :: first() < j && j < len(I0) ==> n.UseCaseInformation[j - 1] == old(I0[j])
+//@   ensures[C20] element-kept-identity: old(anyMatch) && len(n.UseCaseInformation) == len(I0) ==> n.UseCaseInformation[first()].Address == old(I0[first()].Address) && n.UseCaseInformation[first()].Actor == old(I0[first()].Actor) && forall m int :: 0 <= m && m < len(n.UseCaseInformation[first()].UseCaseSupport) ==> !named(n.UseCaseInformation[first()].UseCaseSupport[m], useCaseName)
+//@   modifies n.UseCaseInformation, held
+//@   loop 0 invariant idx: usecaseIndex == first()
+//@   loop 0 invariant prefix: $k <= first() ==> len(usecaseInfo) == $k
+//@   loop 0 invariant prefix-elems: forall j int :: 0 <= j && j < $k && j < first() ==> usecaseInfo[j] == $s[j]
+//@   loop 0 invariant suffix-len: $k > first() ==> len(usecaseInfo) == $k || len(usecaseInfo) == $k - 1
+//@   loop 0 invariant suffix-same: $k > first() && len(usecaseInfo) == $k ==> (forall j int :: first() < j && j < $k ==> usecaseInfo[j] == $s[j]) && usecaseInfo[first()].Address == $s[first()].Address && usecaseInfo[first()].Actor == $s[first()].Actor && forall m int :: 0 <= m && m < len(usecaseInfo[first()].UseCaseSupport) ==> !named(usecaseInfo[first()].UseCaseSupport[m], useCaseName)
+//@   loop 0 invariant suffix-dropped: $k > first() && len(usecaseInfo) == $k - 1 ==> forall j int :: first() < j && j < $k ==> usecaseInfo[j - 1] == $s[j]
